@@ -4,7 +4,7 @@ import SafeNet.Model.Store
 Line protocol of the record-store model (`drv_store`), one output line per op line:
 
 ```
-init <max> <cache> <peer> [<maxval>]  fresh store (shipped constants / feature flag; max_value_bytes) -> ok
+init <max> <cache> <peer> [<maxval> [<chan>]]  fresh store (shipped constants / feature flag; max_value_bytes) -> ok
 initcmd <max> <cache> <peer>   fresh node SwarmDriver; `cput`, `remove`, `deliver`, `get`, `contains`, `addrs`, `cleanup`,
                                `payment` go through the real `handle_local_cmd`                 -> ok
 cput <k> <v>                   LocalSwarmCmd::PutLocalRecord (type derived from the header)     -> ok | dedup | max | bad-header
@@ -98,6 +98,13 @@ def step (d : DSt) (ws : List String) : DSt × String :=
       ({ dists := [], cfg := cfg, st := SafeNet.Store.init cfg (fun _ => 0) }, "ok")
     | _, _ => (d, "bad-op")
   | ["init", m, c, _peer, mv] =>
+    match m.toNat?, c.toNat?, mv.toNat? with
+    | some m, some c, some mv =>
+      let cfg := Cfg.shippedV m c mv
+      ({ dists := [], cfg := cfg, st := SafeNet.Store.init cfg (fun _ => 0) }, "ok")
+    | _, _, _ => (d, "bad-op")
+  | ["init", m, c, _peer, mv, _chan] =>
+    -- a small local command channel: a completion notification that finds it full waits, it is never lost
     match m.toNat?, c.toNat?, mv.toNat? with
     | some m, some c, some mv =>
       let cfg := Cfg.shippedV m c mv
